@@ -101,7 +101,7 @@ def check_screen(ctx, aotools, variant, nx, ps, r0, L0, extra, rng, tag):
         ps = float(ps)
     except (linalg.LinAlgError, np.linalg.LinAlgError):
         ctx.count("constructions_raising_LinAlgError")
-        return False
+        return "LinAlgError"
     ctx.case("screen:" + variant, key=(variant, nx, ps, r0, L0, extra), nontrivial=True, sample=wit)
     shape = scr._scrn.shape
     nin = shape[1]
@@ -291,6 +291,7 @@ def check_innovations_fresh(ctx, aotools, variant, nx, ps, r0, L0, extra, rng):
 
 def run(ctx, spec):
     import aotools
+    from scipy import linalg
     rng = ctx.rng
     for f in range(spec["families"]):
         for variant in ("vk", "fried"):
@@ -316,6 +317,18 @@ def run(ctx, spec):
             # the same geometry in other length units (all three lengths scaled together): only ratios may matter
             cu = float(10 ** rng.uniform(-10, 3))
             check_screen(ctx, aotools, variant, min(nx, 17), ps * cu, r0 * cu, L0 * cu, extra, rng, "other_length_units")
+            # always present: units in which a pixel is 1e-10 (every separation of the stencil far below 1e-8)
+            cu2 = 1e-10 / ps
+            res_u = check_screen(ctx, aotools, variant, min(nx, 13), ps * cu2, r0 * cu2, L0 * cu2, extra, rng, "other_length_units")
+            if res_u == "LinAlgError":
+                # whether a screen can be constructed depends on ratios only: the same screen in ordinary units must fail as well
+                try:
+                    build(aotools, variant, min(nx, 13), ps, r0, L0, extra, ScriptedGenerator([]))
+                    ctx.fail("construction_depends_on_length_unit:" + variant,
+                             "the screen constructs with pixel scale %g but raises LinAlgError with every length multiplied by %g" % (ps, cu2),
+                             {"variant": variant, "nx": min(nx, 13), "pixel_scale": ps, "r0": r0, "L0": L0, "unit_factor": cu2})
+                except (linalg.LinAlgError, np.linalg.LinAlgError):
+                    pass
             ips = [3, np.int64(5), 7, np.int32(2)][int(rng.integers(0, 4))]
             check_screen(ctx, aotools, variant, min(nx, 17), ips, r0, float(ips) * 10 ** rng.uniform(1.3, 3), extra, rng, "int_pixel_scale")
             check_natural(ctx, aotools, variant, min(nx, 20), ps, r0, L0, extra, rng)
